@@ -60,7 +60,7 @@ class ScriptIO:
         s = self.s
         self._close_segment()
         self.reads.append((len(s.out.buffer), len(s.err.buffer)))
-        while self.i < len(self.items) and self.items[self.i][0] == 'cmd':
+        while self.i < len(self.items) and self.items[self.i][0] == 'cmd' and not (s.prompt and self.i >= s.prompt_from):
             text = self.items[self.i][1]
             seg = Segment('cmd', text, self.i)
             self.i += 1
@@ -68,7 +68,7 @@ class ScriptIO:
             s.cur = seg
             s.run_command(text)
             self._close_segment()
-        if self.i >= len(self.items):
+        if self.i >= len(self.items) or (s.prompt and self.i >= s.prompt_from):
             seg = Segment('eof', '', self.i)
             s.segments.append(seg)
             s.cur = seg
@@ -102,18 +102,51 @@ class Session:
         self.pos_err = 0
         self.command_errors = []
         self.on_command = None      # optional hook(session, text) called before a command runs
+        self.after_command = None   # optional hook(session, text) called after a command ran
+        self.prompt = False
+        self.prompt_from = 0
 
     def run_command(self, text):
         if self.on_command is not None:
             self.on_command(self, text)
         self.ctl.process_command(text)
+        if self.after_command is not None:
+            self.after_command(self, text)
 
-    def run(self, items):
+    def run(self, items, prompt=False):
+        """prompt=True: the commands after the last line are typed at the tool's own prompt (TerminalUI) once the input
+        has ended, the way file and run mode take commands; the others run between lines (the way GDB mode takes them)"""
         from backends.libwayland_debug_output import parse
+        self.prompt = prompt
+        self.prompt_from = max([k + 1 for k, it in enumerate(items) if it[0] != 'cmd'], default=0)
         io = ScriptIO(self, items)
         self.io = io
         parse.into_sink(io, self.output, self.cm)
         io._close_segment()
+        if prompt:
+            from frontends.tui import TerminalUI
+
+            typed = []
+
+            def input_func(text):
+                io._close_segment()
+                if typed and self.after_command is not None:
+                    self.after_command(self, typed[-1])
+                if io.i >= len(io.items):
+                    seg = Segment('prompt-end', 'quit', io.i)
+                    self.segments.append(seg)
+                    self.cur = seg
+                    return 'quit'
+                seg = Segment('cmd', io.items[io.i][1], io.i)
+                io.i += 1
+                self.segments.append(seg)
+                self.cur = seg
+                if self.on_command is not None:
+                    self.on_command(self, seg.text)
+                typed.append(seg.text)
+                return seg.text
+            TerminalUI(self.ctl, self.ctl, input_func).run_until_stopped()
+            io._close_segment()
         # whatever is left (Closed notices) belongs to the eof segment, already closed above
         self.warnings = env.log_capture.take()
         return self.segments
